@@ -27,15 +27,17 @@ TStream ==  \* stream / map decoders: k records in, k records out, trailing garb
   /\ Ev.a = "Stream"
   /\ Ev.ok = Ev.wellformed /\ (Ev.ok => Ev.same)
 TSig ==   \* sign/verify samples: deterministic; any flipped bit of message, signature or key fails
-  /\ Ev.a = "Sig" /\ Ev.det /\ Ev.verifies /\ Ev.flipsrejected = Ev.flips
+  /\ Ev.a = "Sig" /\ Ev.det /\ Ev.verifies /\ Ev.flipsrejected = Ev.flips /\ ~Ev.mallverifies
 TJson ==  \* JSON transport preserves an authorization exactly
   /\ Ev.a = "Json" /\ Ev.same
 TCross == \* a signature over one type's signing bytes never verifies as another type with the same fields
   /\ Ev.a = "Cross" /\ ~Ev.verifies
+TTail ==  \* two servers that differ only beyond byte 255 of the location have different signing bytes
+  /\ Ev.a = "Tail" /\ ~Ev.sbsame /\ Ev.selfverifies /\ ~Ev.crossverifies
 TNext ==
   /\ l <= Len(Trace) /\ l' = l + 1
   /\ (IF l = DiagLine THEN PrintT(<<"DIAG", l, Ev>>) ELSE TRUE)
-  /\ (TEnc \/ TNum \/ TDec \/ TStream \/ TSig \/ TJson \/ TCross)
+  /\ (TEnc \/ TNum \/ TDec \/ TStream \/ TSig \/ TJson \/ TCross \/ TTail)
 TSpec == l = 1 /\ [][TNext]_l
 Accepted == TLCGet("stats").diameter - 1 = Len(Trace)
 ASSUME PrefixFree /\ FixedLens
